@@ -19,7 +19,7 @@ Definition infos_eqb : list (Z * hdrs) -> list (Z * hdrs) -> bool :=
 
 Definition rw_eqb (a b : rwriter) : bool :=
   Bool.eqb (rfl a) (rfl b) && hdrs_eqb (rlive a) (rlive b) && res_eqb (rres a) (rres b) &&
-  zs_eqb (rbody a) (rbody b) && infos_eqb (rinfo a) (rinfo b).
+  zs_eqb (rbody a) (rbody b) && infos_eqb (rinfo a) (rinfo b) && (rcode a =? rcode b).
 
 (* what the client sees: 1xx responses, status line + frozen headers, body *)
 Definition view_eqb (a b : view) : bool :=
@@ -67,6 +67,7 @@ Record rest_case := mkRest
     rc_snap : hdrs; rc_live : hdrs; rc_body : list Z;
     rc_infos : list (Z * hdrs);  (* 1xx responses the real writer sent *)
     rc_flushes : Z;              (* Flush calls the real writer received *)
+    rc_code : Z;                 (* the outer record: argument of the last WriteHeader call the real writer got (200 if none) *)
     rc_extra : Z;                (* header names outside the script's namespace *)
     rc_late : Z;                 (* real-writer calls after ServeHTTP returned *)
     rc_foreign : Z;              (* real-writer calls from another goroutine than ServeHTTP's *)
@@ -78,7 +79,7 @@ Record rest_case := mkRest
 Definition obs_rw (c : rest_case) : rwriter :=
   mkRW (rc_fl c) (rc_live c)
        (if rc_status c =? 0 then None else Some (rc_status c, rc_snap c))
-       (rc_body c) (rc_infos c).
+       (rc_body c) (rc_infos c) (rc_code c).
 
 Definition dl_agrees (lo hi seen : option Z) : bool :=
   match lo, hi, seen with
@@ -240,9 +241,22 @@ Definition exempt_not_cut (c : rest_case) : bool :=
   | _ => true
   end.
 
+(* the outer middlewares' record (breaker, log, metrics in front of the timeout handler): the
+   timeout status iff ServeHTTP answered through the timeout branch — also when the handler had
+   flushed its own status before; otherwise the status the client got *)
+Definition outer_view_ok (c : rest_case) : bool :=
+  match rc_sout c, rc_dmode c with
+  | SoRet, Some k =>
+    if existsb (fun e => match e with ES BTimeout => true | _ => false end) (rc_sched c)
+    then rc_code c =? timeout_code k
+    else rc_code c =? rc_status c
+  | SoRet, None => rc_code c =? rc_status c
+  | _, _ => true
+  end.
+
 Definition rest_prop_ok (c : rest_case) : bool :=
   if wrapped (rc_dur c) (rc_rq c) then
-    all_or_nothing_ok c && nothing_after_timeout_ok c &&
+    all_or_nothing_ok c && nothing_after_timeout_ok c && outer_view_ok c &&
     deadline_ok (rc_dur c) (rc_parent c) (rc_dl c) (rc_t1 c) &&
     negb (rc_retatd c =? 0)
   else
@@ -345,7 +359,7 @@ Record seq_req := mkSR
     sr_group : nat;                    (* server cases: the route group *)
     (* observed, per request *)
     sr_sout : sres; sr_status : Z; sr_snap : hdrs; sr_live : hdrs; sr_body : list Z;
-    sr_infos : list (Z * hdrs); sr_flushes : Z;
+    sr_infos : list (Z * hdrs); sr_flushes : Z; sr_code : Z;
     sr_extra : Z; sr_late : Z; sr_foreign : Z;
     sr_wrapped : bool; sr_dl : option Z; sr_t0 : Z; sr_t1 : Z }.
 
@@ -372,7 +386,7 @@ Definition seq_as_rest (dur : Z) (script : list act) (sched : list (nat * ev)) (
   mkRest (sr_fl r) (sr_h0 r) script dur (classify (sr_hdrs r)) (sr_parent r) (sr_dmode r)
          (sr_wrapped r) (proj i sched) []
          (map snd (filter (fun o => Nat.eqb (fst o) i) hobs))
-         (sr_sout r) (sr_status r) (sr_snap r) (sr_live r) (sr_body r) (sr_infos r) (sr_flushes r)
+         (sr_sout r) (sr_status r) (sr_snap r) (sr_live r) (sr_body r) (sr_infos r) (sr_flushes r) (sr_code r)
          (sr_extra r) (sr_late r) (sr_foreign r) (sr_dl r) (sr_t0 r) (sr_t1 r) (-1).
 
 Definition comp_sout (c : comp) : sres :=
@@ -405,7 +419,7 @@ Definition judged_as (r : seq_req) (c : rest_case) : rest_case :=
   if sr_amb r then
     mkRest (rc_fl c) (rc_h0 c) (rc_script c) (rc_dur c) (if sr_wrapped r then RqPlain else RqWebsocket)
            (rc_parent c) (rc_dmode c) (rc_wrapped c) (rc_sched c) (rc_alts c) (rc_hobs c) (rc_sout c)
-           (rc_status c) (rc_snap c) (rc_live c) (rc_body c) (rc_infos c) (rc_flushes c) (rc_extra c)
+           (rc_status c) (rc_snap c) (rc_live c) (rc_body c) (rc_infos c) (rc_flushes c) (rc_code c) (rc_extra c)
            (rc_late c) (rc_foreign c) (rc_dl c) (rc_t0 c) (rc_t1 c) (rc_retatd c)
   else c.
 
